@@ -46,6 +46,7 @@ type Event struct {
 }
 
 type Interp struct {
+	syncMaps  map[string][]smEntry
 	ld        *Loaded
 	p         *Path
 	h         *Harness
@@ -237,6 +238,16 @@ func (in *Interp) globalObj(g *ssa.Global) *Object {
 		o := in.newObject(et, v, g.String())
 		in.globals[g] = o
 		return o
+	}
+	// the standard streams: opaque, distinct, non-nil *os.File values (hop only
+	// passes them around as defaults)
+	if gs := g.String(); gs == "os.Stdin" || gs == "os.Stdout" || gs == "os.Stderr" {
+		if pt, ok := et.(*types.Pointer); ok {
+			fo := in.newObject(pt.Elem(), zeroValue(pt.Elem()), gs+":file")
+			o := in.newObject(et, Ptr{obj: fo}, gs)
+			in.globals[g] = o
+			return o
+		}
 	}
 	v = in.foreignGlobal(g, et)
 	o := in.newObject(et, v, g.String())
